@@ -3,5 +3,5 @@
 d=$1; p=$2; t=${3:-quick}
 cd /repo && git apply "$d/patch.diff" || exit 9
 cd /verif && timeout 1800 ./check $p --tier $t > /tmp/seed_run.log 2>&1; rc=$?
-cd /repo && git checkout -- . 
+cd /repo && git checkout -- . ; (cd /verif && git checkout -- evidence 2>/dev/null)   # evidence written against a changed tree is discarded
 echo "rc=$rc"; grep -E "^(VIOLATION|KNOWN|PROOF-BROKEN|UNDECIDED|CHECKER)" /tmp/seed_run.log | cut -c1-260 | head -${4:-8}; grep -E "tier=" /tmp/seed_run.log | cut -c1-250
